@@ -450,6 +450,172 @@ theorem unpackAll_rejects (tmp : Path) (names : List Path) (ht : isAbs tmp = tru
       simp only
       exact ⟨this.1, by simpa using this.2⟩
 
+/-! ### Archive unpacking: the archive as a sequence of entries, and the calls `copyFromZipArchive` makes -/
+
+theorem unpackDst_error {tmp name : Path} {e : Err} (h : unpackDst tmp name = .error e) : e = .insecure := by
+  unfold unpackDst at h
+  dsimp only at h
+  split at h
+  · cases h; rfl
+  · cases h
+
+theorem copyFromZip_path (e : ZEntry) (dst : Path) : (copyFromZip e dst).path = dst := by
+  unfold copyFromZip; split <;> rfl
+
+/-- Every file-system call the loop makes — granted or refused, whatever entries came before (directory entries,
+    duplicates, names that extend earlier names) and however the operating system answers — is the `Mkdir` /
+    `OpenFile` of one entry of the archive on exactly the destination the scope check accepted **for that entry's own
+    name**: the verdict on an entry never depends on the entries before it, and the operating system is handed the
+    validated path and nothing else. -/
+theorem unpackLoop_ops_validated (os : List FsOp → FsOp → Bool) (tmp : Path) (es : List ZEntry) :
+    ∀ (done : List FsOp), ∀ op ∈ (unpackLoop os tmp done es).1,
+      op ∈ done ∨ ∃ e ∈ es, ∃ dst, unpackDst tmp e.name = .ok dst ∧ op = copyFromZip e dst := by
+  induction es with
+  | nil => intro done op h; exact Or.inl (by simpa [unpackLoop] using h)
+  | cons e es ih =>
+    intro done op h
+    unfold unpackLoop at h
+    cases hd : unpackDst tmp e.name with
+    | error err => rw [hd] at h; exact Or.inl (by simpa using h)
+    | ok dst =>
+      rw [hd] at h
+      dsimp only at h
+      have key : op ∈ done ++ [copyFromZip e dst] →
+          op ∈ done ∨ ∃ e' ∈ e :: es, ∃ dst', unpackDst tmp e'.name = .ok dst' ∧ op = copyFromZip e' dst' := by
+        intro hm
+        rcases List.mem_append.mp hm with hm | hm
+        · exact Or.inl hm
+        · exact Or.inr ⟨e, by simp, dst, hd, by simpa using hm⟩
+      split at h
+      · rcases ih _ op h with h' | ⟨e', he', dst', hd', hop⟩
+        · exact key h'
+        · exact Or.inr ⟨e', by simp [he'], dst', hd', hop⟩
+      · exact key h
+
+/-- Sequences of entries: for every archive (any entries in any order, with any directory flags), every unpack
+    directory and every behaviour of the operating system, each path handed to `os.Mkdir` / `os.OpenFile` lies
+    strictly below the unpack directory and is what the name of the entry it belongs to denotes there. -/
+theorem unpackLoop_contained (os : List FsOp → FsOp → Bool) (tmp : Path) (ht : isAbs tmp = true) (es : List ZEntry) :
+    ∀ op ∈ (unpackLoop os tmp [] es).1,
+      StrictlyInside tmp op.path ∧ ∃ e ∈ es, resolve op.path = resolveFrom (resolve tmp) e.name := by
+  intro op h
+  rcases unpackLoop_ops_validated os tmp es [] op h with h' | ⟨e, he, dst, hd, hop⟩
+  · simp at h'
+  · subst hop
+    rw [copyFromZip_path]
+    refine ⟨?_, e, he, (unpack_contained tmp e.name dst ht hd).2⟩
+    unfold unpackDst at hd
+    dsimp only at hd
+    split at hd
+    · cases hd
+    · rename_i hc
+      cases hd
+      simp at hc
+      rw [join2_abs ht] at hc ⊢
+      exact strictlyInside_of_clean_hasPrefix (isAbs_append ht _) (ne_nil_of_isAbs ht) hc
+
+/-- An archive with an escaping entry anywhere in it never unpacks successfully, and no file-system call is made for
+    that entry or for any entry after it — whatever precedes it (in particular an in-scope directory entry whose name
+    the escaping name extends textually) and however the operating system answers; if the operating system grants
+    every call, the error is the scope error. -/
+theorem unpackLoop_rejects (os : List FsOp → FsOp → Bool) (tmp : Path) (ht : isAbs tmp = true)
+    (pre post : List ZEntry) (e : ZEntry) (hesc : ¬ resolve tmp <+: resolveFrom (resolve tmp) e.name) :
+    ∀ (done : List FsOp),
+      (unpackLoop os tmp done (pre ++ e :: post)).2 ≠ none ∧
+      (unpackLoop os tmp done (pre ++ e :: post)).1.length ≤ done.length + pre.length ∧
+      ((∀ d op, os d op = true) → (unpackLoop os tmp done (pre ++ e :: post)).2 = some .insecure) := by
+  induction pre with
+  | nil =>
+    intro done
+    simp only [List.nil_append]
+    unfold unpackLoop
+    rw [unpack_rejects_before_access tmp e.name ht hesc]
+    simp
+  | cons p ps ih =>
+    intro done
+    simp only [List.cons_append]
+    unfold unpackLoop
+    cases hd : unpackDst tmp p.name with
+    | error err => simp [unpackDst_error hd]
+    | ok dst =>
+      dsimp only
+      by_cases hos : os done (copyFromZip p dst) = true
+      · simp only [hos, if_true]
+        have := ih (done ++ [copyFromZip p dst])
+        refine ⟨this.1, ?_, this.2.2⟩
+        have h2 := this.2.1
+        simp only [List.length_append, List.length_cons, List.length_nil] at h2 ⊢
+        omega
+      · simp only [hos]
+        refine ⟨by simp, by simp, ?_⟩
+        intro hall
+        exact absurd (hall _ _) hos
+
+/-- No over-rejection, for whole archives: if every entry name stays strictly below a clean unpack directory and the
+    operating system grants the calls, the archive is unpacked completely, entry by entry, each at `Join(tmpDir, name)`. -/
+theorem unpackLoop_accepts_inside (os : List FsOp → FsOp → Bool) (hos : ∀ d op, os d op = true) (tmp : Path)
+    (ht : isAbs tmp = true) (hc : clean tmp = tmp) (hroot : tmp ≠ [47]) (es : List ZEntry)
+    (hin : ∀ e ∈ es, ∃ x xs, resolveFrom (resolve tmp) e.name = resolve tmp ++ x :: xs) :
+    ∀ (done : List FsOp),
+      unpackLoop os tmp done es = (done ++ es.map (fun e => copyFromZip e (join2 tmp e.name)), none) := by
+  induction es with
+  | nil => intro done; simp [unpackLoop]
+  | cons e es ih =>
+    intro done
+    obtain ⟨x, xs, hx⟩ := hin e (by simp)
+    unfold unpackLoop
+    rw [unpack_accepts_inside tmp e.name ht hc hroot x xs hx]
+    simp only [hos, if_true]
+    rw [ih (fun e' he' => hin e' (by simp [he'])) (done ++ [copyFromZip e (join2 tmp e.name)])]
+    simp
+
+/-- The name alphabet: a name without the separator byte `/` (and other than "", ".", "..") is ONE file name, whatever
+    else it is made of — backslashes, colons, NUL, CR/LF, a full-width solidus, `%2e%2e`, trailing dots and spaces are
+    ordinary bytes on POSIX.  Such an entry is accepted and its destination is literally `tmpDir/<name>`, the one
+    path `copyFromZipArchive` gets: nothing later may read the name's bytes as separators. -/
+theorem unpack_name_without_separator_is_literal (tmp name : Path) (ht : isAbs tmp = true) (hc : clean tmp = tmp)
+    (hroot : tmp ≠ [47]) (hn : Normal name) (isDir : Bool) :
+    unpackDst tmp name = .ok (tmp ++ 47 :: name) ∧
+    (unpackLoop (fun _ _ => true) tmp [] [⟨name, isDir⟩]).1 = [copyFromZip ⟨name, isDir⟩ (tmp ++ 47 :: name)] := by
+  have hin : resolveFrom (resolve tmp) name = resolve tmp ++ name :: [] := by
+    simp [resolveFrom, splitSep_of_not_mem hn.2.2.2, stepSeg_normal hn]
+  have hbase : tmp = 47 :: joinSep (resolve tmp) := by rw [← clean_abs ht, hc]
+  have hne : resolve tmp ≠ [] := by
+    intro e; rw [e] at hbase; exact hroot (by simpa [joinSep] using hbase)
+  have hj : join2 tmp name = tmp ++ 47 :: name := by
+    rw [join2_abs ht, clean_abs (isAbs_append ht _), resolve_append_sep, hin, joinSep_append hne]
+    conv => rhs; rw [hbase]
+    simp [joinSep]
+  have h1 := unpack_accepts_inside tmp name ht hc hroot name [] hin
+  rw [hj] at h1
+  refine ⟨h1, ?_⟩
+  simp [unpackLoop, h1]
+
+/-- The same for the file-tree backend: a key without `/` names the one file `base/<key>`, whatever its bytes. -/
+theorem fstree_key_without_separator_is_literal (base key : Path) (chk : Bool) (hb : isAbs base = true)
+    (hc : clean base = base) (hroot : base ≠ [47]) (hn : Normal key) :
+    buildFilePath base key chk = .ok (base ++ 47 :: key) := by
+  have := fstree_accepts_inside base chk hb hc hroot key [] (by simpa using hn)
+  simpa [joinSep] using this
+
+/-- The regenerated shape of the source (go/ast, `harness/cmd/extract/paths.go`): the loop over the archive entries
+    checks every entry unconditionally on the path computed from that entry's own name and passes that path on;
+    `copyFromZipArchive` hands its path parameter unchanged to `os.Mkdir` / `os.OpenFile`; and the scope checks of the
+    components are the prefix comparisons (with separator) the model states. -/
+theorem unpack_source_checks_every_entry_and_uses_the_checked_path :
+    PB.Gen.Paths.unpackLoopChecksEveryEntry = true ∧ PB.Gen.Paths.copyUsesGivenPath = true ∧
+    PB.Gen.Paths.unpackScopeCond = "!strings.HasPrefix(dstPath, tmpDir+string(filepath.Separator))" := by decide
+
+theorem scope_checks_as_modelled :
+    PB.Gen.Paths.fstreeScopeCond =
+      "!strings.HasPrefix(dstPath, fst.basePath+string(filepath.Separator)) && (checkKeyLength || dstPath != fst.basePath)" ∧
+    PB.Gen.Paths.fstreeCleanCond =
+      "checkKeyLength && dstPath != fst.basePath+string(filepath.Separator)+filepath.FromSlash(key)" ∧
+    PB.Gen.Paths.scanScopeCond =
+      "root != reg.storageDir.Path && !strings.HasPrefix(root, reg.storageDir.Path+string(filepath.Separator))" ∧
+    PB.Gen.Paths.dirStructureScopeCond = "!strings.HasPrefix(dirPath, slashedPath)" ∧
+    PB.Gen.Paths.bridgeScopeCond = "!strings.HasPrefix(requestURL, apiV1Path)" := by decide
+
 /-! ### Storage scan: the scan root -/
 
 /-- The directory handed to `filepath.Walk` is inside the storage directory, and it is the directory the
@@ -604,6 +770,33 @@ example : ensureRelPathT (childDir (newDirStructure (B "/a/root") 0o755) 0 (B "x
 example : unpackDst (B "/s/tmp/thing_v1-0-0") (B "../../../root-other/evil") = .error .insecure := by decide
 example : unpackDst (B "/s/tmp/thing_v1-0-0") (B "/abs") = .ok (B "/s/tmp/thing_v1-0-0/abs") := by decide
 example : unpackAll (B "/s/tmp/t") [B "ok.txt", B "d/", B "../x", B "later"] = ([B "/s/tmp/t/ok.txt", B "/s/tmp/t/d"], some .insecure) := by decide
+-- sequences of entries (seeded C18-r3-1: an in-scope directory entry, then a name that extends it textually and climbs out)
+example : unpackLoop (osFresh (B "/s/tmp/t")) (B "/s/tmp/t") [] [⟨B "sub/", true⟩, ⟨B "sub/../../../../x", false⟩, ⟨B "later", false⟩] =
+    ([.mkdir (B "/s/tmp/t/sub")], some .insecure) := by decide
+example : unpackLoop (osFresh (B "/s/tmp/t")) (B "/s/tmp/t") [] [⟨B "a/", true⟩, ⟨B "a/b/", true⟩, ⟨B "a/b/../../../../../dir/", true⟩] =
+    ([.mkdir (B "/s/tmp/t/a"), .mkdir (B "/s/tmp/t/a/b")], some .insecure) := by decide
+example : unpackLoop (osFresh (B "/s/tmp/t")) (B "/s/tmp/t") [] [⟨B "sub", true⟩, ⟨B "sub/f", false⟩, ⟨B "sub/f", false⟩, ⟨B "sub/../g", false⟩] =
+    ([.mkdir (B "/s/tmp/t/sub"), .create (B "/s/tmp/t/sub/f"), .create (B "/s/tmp/t/sub/f"), .create (B "/s/tmp/t/g")], none) := by decide
+example : unpackLoop (osFresh (B "/s/tmp/t")) (B "/s/tmp/t") [] [⟨B "f", false⟩, ⟨B "f/x", false⟩, ⟨B "../../x", false⟩] =
+    ([.create (B "/s/tmp/t/f"), .create (B "/s/tmp/t/f/x")], some .copyFailed) := by decide
+example : unpackLoop (osFresh (B "/s/tmp/t")) (B "/s/tmp/t") [] [⟨B "d/", true⟩, ⟨B "d", true⟩] =
+    ([.mkdir (B "/s/tmp/t/d"), .mkdir (B "/s/tmp/t/d")], some .copyFailed) := by decide
+-- the name alphabet (seeded C18-r3-3): backslashes, colons, look-alikes are bytes of one file name
+example : unpackDst (B "/s/tmp/t") (B "..\\..\\..\\x") = .ok (B "/s/tmp/t/..\\..\\..\\x") := by decide
+example : unpackDst (B "/s/tmp/t") (B "sub/..\\..\\..\\..\\x") = .ok (B "/s/tmp/t/sub/..\\..\\..\\..\\x") := by decide
+example : unpackDst (B "/s/tmp/t") (B "..:..:x") = .ok (B "/s/tmp/t/..:..:x") := by decide
+example : unpackDst (B "/s/tmp/t") (B "%2e%2e/%2e%2e/x") = .ok (B "/s/tmp/t/%2e%2e/%2e%2e/x") := by decide
+example : unpackDst (B "/s/tmp/t") (B ".. /.. /x") = .ok (B "/s/tmp/t/.. /.. /x") := by decide
+example : unpackDst (B "/s/tmp/t") (B "..\\../../../x") = .error .insecure := by decide
+example : buildFilePath (B "/a/root") (B "..\\..\\x") true = .ok (B "/a/root/..\\..\\x") := by decide
+-- names built from the root's own absolute path (seeded C18-r3-2): a foreign tree that embeds the root's path
+example : buildFilePath (B "/T/inside/db") (B "../../backup-inside-db/T/inside/db/victim") true = .error .integrity := by decide
+example : buildFilePath (B "/T/inside/db") (B "../../mirror/T/inside/db/") false = .error .integrity := by decide
+example : unpackDst (B "/s/tmp/t") (B "../../../mirror/s/tmp/t/x") = .error .insecure := by decide
+example : scanRoot (B "/s/storage") (B "/s") (B "/s/mirror/s/storage/x") = .error .outside := by decide
+example : scanRoot (B "/s/storage") (B "/s") (B "mirror/s/storage") = .error .outside := by decide
+example : ensureAbsPath (B "/a/root") (B "/a/mirror/a/root/x") = .error .outside := by decide
+example : ensureRelPath (B "/a/root") (B "../mirror/a/root/x") = .error .outside := by decide
 -- ScanStorage (#23): sibling sharing the name prefix, relative roots
 example : scanRoot (B "/s/storage") (B "/s") (B "/s/storage-other") = .error .outside := by decide
 example : scanRoot (B "/s/storage") (B "/s") (B "storage-other/x") = .error .outside := by decide
